@@ -84,7 +84,12 @@ pub fn judge_session(rep: &LoopReport) -> Judged {
                 games += 1;
             }
             "position" => match interpret_position(&x.line) {
-                Some((p, _)) => pos = p,
+                Some((p, _)) => {
+                    pos = p;
+                    if x.line.len() >= 8192 {
+                        j.probes.add("position_lines_of_8_kib_or_more", 1);
+                    }
+                }
                 None => {
                     j.probes.add("position_lines_not_understood_by_oracle", 1);
                 }
@@ -164,6 +169,7 @@ pub fn judge_session(rep: &LoopReport) -> Judged {
                     if r.tt_hits > 0 && games > 0 {
                         j.probes.add("gos_with_tt_hits", 1);
                     }
+                    j.probes.max("max_run_of_nodes_without_progress_in_one_search", r.max_no_progress_run);
                     let shape = format!("{}|{}|{}|{}", pos.piece_count(), legal.min(40), r.limit.map(|l| l.as_millis().min(99999)).unwrap_or(u128::MAX) as u64 % 100_000, r.deadline_passed_at.is_some());
                     j.shapes.push(hash_str(&format!("{}{}", shape, x.line.split_whitespace().nth(1).unwrap_or(""))));
                 }
@@ -473,7 +479,19 @@ pub fn generate_and_run(seed: u64) -> (Scenario, LoopReport) {
                             }
                         }
                     }
-                    g.plies_left = if g.lookalike_forced { 1 } else if g.explosive_game { g.rng.range(1, 6) } else { g.rng.range(1, 40) };
+                    let mut long_game = false;
+                    if !g.explosive_game && !g.lookalike_forced && g.moves.is_empty() && g.rng.chance(1, 40) {
+                        // a very long game (1600-4500 plies of piece shuffles: a position line
+                        // of 8-22 KB, read by the real input loop)
+                        let target = g.rng.range(1600, 4500) as usize;
+                        let (ms, p) = gen::shuffle_history(&g.pos, target);
+                        if ms.len() >= 1600 && !p.legal_moves().is_empty() {
+                            g.moves = gen::moves_uci(&ms);
+                            g.pos = p;
+                            long_game = true;
+                        }
+                    }
+                    g.plies_left = if g.lookalike_forced { 1 } else if g.explosive_game { g.rng.range(1, 6) } else if long_game { g.rng.range(1, 3) } else { g.rng.range(1, 40) };
                     g.phase = 1;
                     // about a third of the games omit ucinewgame; a look-alike game always does
                     // (its point is what the tables hold from the game before)
